@@ -420,3 +420,10 @@ Proof.
       apply Hmin in Hp. lia.
     + exfalso. apply (proj1 Hnone eq_refl p). exact Hp.
 Qed.
+
+(* on a graph without cycles Girth returns -1 *)
+Corollary girth_go_acyclic : forall g, wf g -> acyclic g -> girth_go g = Done (-1)%Z.
+Proof.
+  intros g Hwf Ha. destruct (girth_go_upper_partial g Hwf) as [r [Hr [-> | [p [Hp _]]]]]; [exact Hr|].
+  exfalso. exact (Ha p Hp).
+Qed.
